@@ -3,6 +3,7 @@ package c07
 
 import (
 	"fmt"
+	"time"
 
 	"reduction.dev/reduction/dkv"
 	"verif.local/mc/harness/dkvh"
@@ -20,11 +21,13 @@ type params struct {
 }
 
 func Run(k *report.Check) {
-	k.Rule = "schedule tier: four designated colliding histories (overwrite across a rotation, delete of a flushed key, three level-0 tables, a multi-table sorted level) with the foreground thread reading every key and scanning after every write while the real flush and compaction goroutines run under the cooperative scheduler, every schedule within the delay bound; history tier: every sequence of put/delete over colliding keys {a,ab,b,80ff,00} up to the depth, under every tiny option set, with background flush+compaction either completed or held back at every step (sync is an enumerated action); after every write Get of every key and ScanPrefix of every prefix are compared with a map. non-trivial = distinct (options, layout: sealed memtables / tables per level, reference contents) in which a read was served while an overwritten or deleted version of the key still existed in an older memtable or table"
+	k.Rule = "one-table-held tier: histories over three keys in which the creation of the n-th table file (n<=4) is held back, so that one flush or compaction step stays in the middle of its work while the other queue proceeds (a flush lands inside a compaction step); reads after every write once everything not held has come to rest, and after the release. schedule tier: four designated colliding histories (overwrite across a rotation, delete of a flushed key, three level-0 tables, a multi-table sorted level) with the foreground thread reading every key and scanning after every write while the real flush and compaction goroutines run under the cooperative scheduler, every schedule within the delay bound; history tier: every sequence of put/delete over colliding keys {a,ab,b,80ff,00} up to the depth, under every tiny option set, with background flush+compaction either completed or held back at every step (sync is an enumerated action); after every write Get of every key and ScanPrefix of every prefix are compared with a map. non-trivial = distinct (options, layout: sealed memtables / tables per level, reference contents) in which a read was served while an overwritten or deleted version of the key still existed in an older memtable or table"
 	k.Assumptions = []string{"single writer (as in the operator)", "in the history tier background work is either quiescent or held back before its first storage operation; the schedule tier interleaves it at synchronisation operations", "MemoryFilesystem"}
 	k.Budget(150, 1500)
 	p := params{depth: k.Pick(5, 6), nkeys: k.Pick(4, 5), cfgs: dkvh.Configs(k.Thorough())}
 	k.ExploreProc(fmt.Sprintf("history/d=%d,keys=%d", p.depth, p.nkeys), mc.Config{}, p, history)
+	hp := HeldOneParams(k.Pick(4, 6))
+	k.ExploreProc(fmt.Sprintf("history/one-table-held,d=%d", k.Pick(4, 6)), mc.Config{Deadline: k.Within(0.3)}, hp, HeldOne)
 	bound := k.Pick(1, 2)
 	k.ExploreSched(fmt.Sprintf("schedule/delays<=%d", bound), mc.Config{Bound: bound}, sparams{}, schedBody)
 }
@@ -77,7 +80,10 @@ func history(c *mc.Ctx) {
 			key := ks[ki]
 			if (op-3)%2 == 0 {
 				val := fmt.Sprintf("v%d", step)
-				c.Op("Put(%q,%s)", key, val)
+				if step%3 == 1 {
+					val = "" // empty values are legal (timers are stored with them)
+				}
+				c.Op("Put(%q,%q)", key, val)
 				db.Put([]byte(key), []byte(val))
 				ref[key] = val
 			} else {
@@ -104,4 +110,90 @@ func history(c *mc.Ctx) {
 	sync("sync(final)")
 	dkvh.CheckReads(c, "after final sync", db, ref, ks, prefixes)
 	c.Outcome(fmt.Sprint(o, ref))
+}
+
+// HeldOneParams are the parameters of the one-table-held tier (also run as a part of C18).
+func HeldOneParams(depth int) any {
+	return params{depth: depth, nkeys: 3, cfgs: []dkvh.Options{{Mem: 30, Table: 80, L0: 1, Smallest: 4500, Ampl: 50}, {Mem: 30, Table: 80, L0: 2, Smallest: 4500, Ampl: 50}, {Mem: 30, Table: 80, L0: 1, Smallest: 9000, Ampl: 200}}}
+}
+
+// HeldOne: the creation of one table file - the n-th of the execution, n enumerated - is held back,
+// so that the flush or compaction step that writes it stays in the middle of its work (a
+// compaction step has already read the level list it works from) while the other queue goes on:
+// later flushes publish their tables meanwhile. After every write the harness waits until
+// everything that is not held has come to rest, reads, and finally releases the file.
+func HeldOne(c *mc.Ctx) {
+	p := c.Param.(params)
+	o := p.cfgs[c.Choose(len(p.cfgs))]
+	nth := 1 + c.Choose(4)
+	c.Op("[%s; table file %d is held back]", o, nth)
+	dkvh.Tune(o)
+	defer shim.SetLocal(nil)
+	fs := dkvh.NewFS()
+	fs.HoldNth(nth)
+	defer fs.Hold(false)
+	db := dkv.Open(o.DBOptions(fs), nil)
+	ks := keys[:p.nkeys]
+	ref := dkvh.Ref{}
+	released := false
+	settle := func() {
+		for i := 0; i < 40000; i++ {
+			fl, co := dkv.VerifFlushIdle(), dkv.VerifCompactionIdle()
+			if (fl && co) || (fs.Blocked() > 0 && (fl || co)) {
+				// confirm: nothing moved in between
+				if fl2, co2 := dkv.VerifFlushIdle(), dkv.VerifCompactionIdle(); fl2 == fl && co2 == co {
+					return
+				}
+			}
+			time.Sleep(50 * time.Microsecond)
+		}
+		c.Note("background_work_did_not_settle_within_2s")
+	}
+	heldSeen := false
+	for step := 0; step < p.depth; step++ {
+		op := c.Choose(2*len(ks) + 2)
+		switch {
+		case op == 0:
+			step = p.depth
+			continue
+		case op == 1:
+			if released {
+				continue
+			}
+			c.Op("release the held table file")
+			fs.Hold(false)
+			released = true
+			if err := db.WaitOnTasks(); err != nil {
+				c.Failf("background task failed: %v", err)
+			}
+		default:
+			ki := (op - 2) / 2
+			key := ks[ki]
+			if (op-2)%2 == 0 {
+				val := fmt.Sprintf("v%d", step)
+				c.Op("Put(%q,%s)", key, val)
+				db.Put([]byte(key), []byte(val))
+				ref[key] = val
+			} else {
+				c.Op("Delete(%q)", key)
+				db.Delete([]byte(key))
+				delete(ref, key)
+			}
+			settle()
+		}
+		if fs.Blocked() > 0 {
+			heldSeen = true
+		}
+		dkvh.CheckReads(c, "live", db, ref, ks, prefixes)
+	}
+	c.Op("release, sync")
+	fs.Hold(false)
+	if err := db.WaitOnTasks(); err != nil {
+		c.Failf("background task failed: %v", err)
+	}
+	dkvh.CheckReads(c, "after the held table file was released and everything finished", db, ref, ks, prefixes)
+	if heldSeen {
+		c.Note("executions_reading_while_one_table_file_was_held")
+		c.Nontrivial(fmt.Sprint(o, nth, dkvh.NoteLayout(c, db), ref))
+	}
 }
